@@ -13,6 +13,10 @@ CLAIMED = {
          "Machine-checked proof that for every command constructor, every byte string in every argument position, every SplitLen and every behaviour of ToUpper on non-ASCII input, each line the model puts on the outgoing queue is free of CR/LF and begins with the method's verb, and that the bytes write emits re-split at CRLF into exactly those lines. Tied to the tree by facts (only Raw sends on conn.out; the exported methods reaching Raw are exactly the modelled ones; verb constants; normalised bodies of Raw, write, cutNewLines, splitArgs and every command method) and by a differential run of every method on a real Conn against the compiled model, with the Spec predicate evaluated on the implementation's queue contents.",
          "Trusted: Lean kernel; extractor; harness + driver; fmt.Sprintf/Sprintln (Privmsgf/ln are modelled as Privmsg of the formatted string); bufio write+flush delivering the queued line followed by CRLF (write's body is pinned by a fact; bytes on a real connection are compared in C09's correspondence).",
          "6 (C08)"),
+ "C10": ("Lean 4 theorems over the rateLimit arithmetic and over valid timed runs (invariant + accumulation lemma, omega) + facts + exact/interval differential correspondence",
+         "Machine-checked proof of the per-line rule (charge 2 s + chars/120 s; penalty' = max 0 (penalty + charge - elapsed); held for its own charge iff penalty' > 10 s; Flood => never delayed) and of the window bound for every run of consecutive lines in every history of a fresh client under every scheduling delay (total charge <= wall-clock between first and last write + 10 s + the first two lines' charges). Tied to the tree by the pinned bodies of rateLimit and write and by running the real rateLimit in an exact regime (saturated elapsed, penalties placed on 10 s - 1 ns / 10 s / 10 s + 1 ns) and a real-clock regime judged by the interval Spec.",
+         "Trusted: Lean kernel; extractor; harness + driver; time.Now monotonic, time.After not early (assumptions of the Valid predicate); int64 wrap-around not modelled.",
+         "6 (C10)"),
 }
 ALL = [l for l in open(os.path.join(V, "properties.jsonl"))]
 ids = [json.loads(l)["id"] for l in ALL]
